@@ -145,10 +145,10 @@ theorem wasBase_app {h : HcPair F} (bs : List (Nat × Nat)) (pb : Nat) (hw : Was
 
 /-- A step of `B` that changes only `B` (keeping `ps` up to acknowledgements) and records its base. -/
 theorem pairInv_stepB {h : HcPair F} (hi : PairInv h) (b : State F) (fed' : List Datagram)
-    (outs' : List (List Nat))
+    (outs' : List (List Nat)) (acc' : List Nat)
     (hps : ∃ pendB, AInv pendB b.ps) (hpr : ∃ W M, PRecv.Inv W M b.pr)
     (hfed : ∀ d ∈ fed', Genuine h.pend d) :
-    PairInv { h with B := b, fed := h.fed ++ fed', outs := outs',
+    PairInv { h with B := b, fed := h.fed ++ fed', outs := outs', accIds := acc',
                      advB := h.advB + pidSub b.pr.baseId h.B.pr.baseId,
                      bases := h.bases ++ [(h.advB + pidSub b.pr.baseId h.B.pr.baseId, b.pr.baseId)] } where
   a := hi.a
@@ -246,9 +246,9 @@ theorem pairInv_step (ops : FloatOps F) {h h' : HcPair F} (hi : PairInv h) (op :
         cases hv with
         | skip h1 h2 _ _ _ _ =>
           subst h1
-          exact pairInv_stepB hi _ _ _ ⟨pendB, hpb⟩ ⟨W, M, hpr⟩ (by rw [h2]; intro d hd; cases hd)
+          exact pairInv_stepB hi _ _ _ _ ⟨pendB, hpb⟩ ⟨W, M, hpr⟩ (by rw [h2]; intro d hd; cases hd)
         | data id nonce dgs h1 h2 h3 _ h5 =>
-          refine pairInv_stepB hi _ _ _ ⟨pendB, by rw [h2]; exact hpb⟩
+          refine pairInv_stepB hi _ _ _ _ ⟨pendB, by rw [h2]; exact hpb⟩
             ⟨W, M, foldDg_inv _ _ _ hpr h5⟩ ?_
           rw [h3]
           intro d hd
@@ -256,10 +256,10 @@ theorem pairInv_step (ops : FloatOps F) {h h' : HcPair F} (hi : PairInv h) (op :
           · exact wire_decode_data hw (fun d hg => genuine_ok hi.a d hg) id nonce dgs h1 d hd
           · cases hd
         | sync nf np _ h2 h3 _ h5 =>
-          exact pairInv_stepB hi _ _ _ ⟨pendB, by rw [h2]; exact hpb⟩
+          exact pairInv_stepB hi _ _ _ _ ⟨pendB, by rw [h2]; exact hpb⟩
             ⟨W, M, resyncTo_inv _ _ np hpr h5⟩ (by rw [h3]; intro d hd; cases hd)
         | ack fb pb acks ps1 _ h2 h3 _ h5 h6 =>
-          exact pairInv_stepB hi _ _ _ ⟨pendB, ainv_acknowledge (h5.ainv hpb) pb h6⟩
+          exact pairInv_stepB hi _ _ _ _ ⟨pendB, ainv_acknowledge (h5.ainv hpb) pb h6⟩
             ⟨W, M, by rw [h2]; exact hpr⟩ (by rw [h3]; intro d hd; cases hd)
   | recvB =>
     simp only [stepP] at hs
@@ -275,7 +275,7 @@ theorem pairInv_step (ops : FloatOps F) {h h' : HcPair F} (hi : PairInv h) (op :
       obtain ⟨s1, o1, hr1, hinv1⟩ := PRecv.receive_inv hpr
       rw [hrc] at hr1
       simp only [Except.ok.injEq, Prod.mk.injEq] at hr1
-      have := pairInv_stepB hi b' [] (h.outs ++ out) ⟨pendB, by rw [hps]; exact hpb⟩
+      have := pairInv_stepB hi b' [] (h.outs ++ out) h.accIds ⟨pendB, by rw [hps]; exact hpb⟩
         ⟨W, M, by rw [hr1.1]; exact hinv1⟩ (by intro d hd; cases hd)
       simpa using this
   | flushB =>
